@@ -95,6 +95,33 @@ class NorthEastConditions:
     modifies = ()
 
 
+@contract("MeshPatt.north_east_simul_shading_lemma_conditions", params={"self": "Mesh", "pos1": "Cell", "pos2": "Cell"}, returns="bool", props=("C18",))
+class NorthEastSimulConditions:
+    # the side conditions of the simultaneous shading lemma for the two cells (x, y) (upper, north-east of a
+    # point) and (x, y-1) directly below it
+    def requires(c, self, pos1, pos2):
+        return c.and_(c.is_mesh(self), _cell_ok(c, self, pos1), _cell_ok(c, self, pos2), c.int(pos1[1]) >= c.int(pos2[1]))
+
+    def ensures(c, self, pos1, pos2, result):
+        n = c.len(self.pattern)
+        x, y = c.int(pos1[0]), c.int(pos1[1])
+        x2, y2 = c.int(pos2[0]), c.int(pos2[1])
+        sh = lambda a, b: c.shaded(self, a, b)  # noqa: E731
+        return c.iff(
+            result,
+            c.and_(
+                x >= 1, c.implies(x >= 1, lambda: self.pattern[x - 1] == y - 1),     # a point sits at the south-west corner of the upper cell
+                x2 == x, y2 == y - 1,                                       # the second cell is directly below the first
+                c.not_(sh(x, y)), c.not_(sh(x, y - 1)),                     # neither cell is shaded
+                c.not_(sh(x - 1, y)), c.not_(sh(x - 1, y - 1)),             # the two cells left of them (around the point) are unshaded
+                c.forall(0, n + 1, lambda b: c.implies(c.and_(b != y, b != y - 1), c.implies(sh(x - 1, b), sh(x, b)))),   # column condition
+                c.forall(0, n + 1, lambda a: c.implies(c.and_(a != x, a != x - 1), c.iff(sh(a, y), sh(a, y - 1)))),       # the two rows match
+            ),
+        )
+
+    modifies = ()
+
+
 @contract("MeshPatt._add_point_base_shading", params={"self": "Mesh", "x": "int", "y": "int"}, returns="CellSet", props=("C18",))
 class AddPointBaseShading:
     # inserting a point into cell (x, y) splits column x and row y in two: a shaded cell (sx, sy)
@@ -363,3 +390,62 @@ class CanShade:
         return c.and_(c.len(result) <= 4, c.forall(0, c.len(result), lambda t: names_corner_point(result[t])))
 
     modifies = ()
+
+
+@contract("MeshPatt.can_simul_shade", params={"self": "Mesh", "pos1": "Cell", "pos2": "Cell"}, returns="Seq", props=("C18",))
+class CanSimulShade:
+    """Same transport argument for the simultaneous version: the two cells are rotated together with the
+    pattern, re-ordered so that the upper one comes first, and every value reported names a point of the ORIGINAL
+    pattern on a corner of one of the two ORIGINAL cells."""
+
+    def requires(c, self, pos1, pos2):
+        return c.and_(c.is_mesh(self), _cell_ok(c, self, pos1), _cell_ok(c, self, pos2))
+
+    def ensures(c, self, pos1, pos2, result):
+        n = c.len(self.pattern)
+        p = self.pattern
+
+        def corner_of(cell, v):
+            x, y = c.int(cell[0]), c.int(cell[1])
+            return c.and_(
+                c.or_(v == y - 1, v == y),
+                c.or_(c.and_(x >= 1, c.implies(x >= 1, lambda: p[x - 1] == v)), c.and_(x < n, c.implies(x < n, lambda: p[x] == v))),
+            )
+
+        return c.and_(c.len(result) <= 4, c.forall(0, c.len(result), lambda t: c.or_(corner_of(pos1, result[t]), corner_of(pos2, result[t]))))
+
+    modifies = ()
+
+
+# ------------------------------------------------ two points at once (add_increase / add_decrease, C18)
+def _two_points(qual, increasing):
+    @contract(qual, params={"self": "Mesh", "pos": "Cell"}, returns="Mesh", props=("C18",))
+    class _K:
+        # two new points in the (unshaded) cell pos, forming an ascent / a descent: column x and row y are each
+        # split in THREE; a cell of the result is shaded iff the original cell it lies in is; every other point keeps
+        # its place relative to the new lines
+        def requires(c, self, pos):
+            return c.and_(c.is_mesh(self), _cell_ok(c, self, pos), c.not_(c.shaded(self, pos[0], pos[1])))
+
+        def ensures(c, self, pos, result):
+            n = c.len(self.pattern)
+            x, y = c.int(pos[0]), c.int(pos[1])
+            p, r = self.pattern, result.pattern
+            back = lambda v, t: c.ite(v <= t, v, c.ite(v <= t + 2, t, v - 2))  # noqa: E731  original column / row of a new one
+            return c.and_(
+                c.len(r) == n + 2,
+                r[x] == (y if increasing else y + 1),
+                r[x + 1] == (y + 1 if increasing else y),
+                c.forall(0, n, lambda i: r[c.ite(c.int(i) < x, i, i + 2)] == c.ite(p[i] < y, p[i], p[i] + 2)),
+                c.forall_cell(lambda a, b: c.implies(c.and_(a >= 0, a <= n + 2, b >= 0, b <= n + 2),
+                                                     c.iff(c.shaded(result, a, b), c.shaded(self, back(a, x), back(b, y))))),
+                c.is_mesh(result),
+            )
+
+        modifies = ()
+
+    return _K
+
+
+_two_points("MeshPatt.add_increase", True)
+_two_points("MeshPatt.add_decrease", False)
